@@ -123,6 +123,9 @@ class ExprMixin(object):
             v = VModule(r[1])
         elif r[0] == "ext":
             v = VExt(r[1])
+            if r[1] in ("six.PY2", "six.PY3"):
+                # every analysed build configuration is a Python 3 one
+                v = VConst(r[1] == "six.PY3")
         else:
             _, mod, nm = r
             v = self.global_var(mod, nm)
